@@ -203,16 +203,22 @@ def gradient_obligations(chk, P, rule="G"):
     val = I.call(g, [x], {})
     site = gfi.site()
     fpath = f.path
-    ok = isinstance(val, Phi) and isinstance(val.cond, Cond) and val.cond.kind == "hasattr" \
-        and val.cond.args[0].key() == f.key() and val.cond.args[1].v == "deriv"
-    chk.ob(rule + "1", "gradient(f)(x) selects on hasattr(f, 'deriv')", ok, site=site, found=val,
+    # the selection is decided by evaluating under each answer to hasattr(f, 'deriv') (not by the shape of the merged value)
+    sel = Cond("hasattr", f, Const("deriv"))
+    branch = {}
+    for ans in (True, False):
+        Ia = make_interp(P, hooks=False, assumptions={sel.key(): ans})
+        ga = Ia.run(gfi, [f, h])
+        branch[ans] = Ia.call(ga, [x], {})
+    ok = isinstance(val, Phi) and not isinstance(branch[True], Phi) and not isinstance(branch[False], Phi)
+    chk.ob(rule + "1", "gradient(f)(x) selects on hasattr(f, 'deriv') and on nothing else", ok, site=site, found=val,
            expect="phi(hasattr(f,'deriv') ? f.deriv(x) : central difference)", key=rule + "1|gradient|select")
     if ok:
-        a = I.num(val.a)
+        a = I.num(branch[True])
         want_a = ep.app(fpath, [x.rf], dorder=1)
         chk.ob(rule + "2", "analytic branch is f.deriv(x)", ep.equal(a, want_a)[0], site=site, found=a, expect=want_a,
                key=rule + "2|gradient|analytic")
-        b = I.num(val.b)
+        b = I.num(branch[False])
         half = h.rf / ep.const(2)
         want_b = (ep.app(fpath, [x.rf + half]) - ep.app(fpath, [x.rf - half])) / h.rf
         chk.ob(rule + "3", "fallback is the symmetric difference quotient (f(x+h/2)-f(x-h/2))/h", ep.equal(b, want_b)[0],
